@@ -59,6 +59,68 @@ fn main() {
             let report = checks::run_worker(&wa);
             println!("REPORT {}", serde_json::to_string(&report).unwrap());
         }
+        "pttest" => {
+            use proptest::strategy::{Strategy, ValueTree};
+            use proptest::test_runner::{Config, RngAlgorithm, TestRng, TestRunner};
+            let buf: Vec<u8> = (0..4096u32).map(|i| (i.wrapping_mul(2654435761) >> 13) as u8).collect();
+            let rng = TestRng::from_seed(RngAlgorithm::PassThrough, &buf);
+            let mut runner = TestRunner::new_with_rng(Config::default(), rng);
+            let s = (3u8..=6, proptest::collection::vec(0u8..10, 3..6));
+            for _ in 0..3 {
+                let v = s.new_tree(&mut runner).unwrap().current();
+                println!("{v:?}");
+            }
+            let g = vharness::gen::GenCfg::default();
+            let which = args.get(2).map(|s| s.as_str()).unwrap_or("");
+            let t0 = std::time::Instant::now();
+            match which {
+                "eoa" => { let s = vharness::gen::eoa(vharness::gen::Dim { n_eoa: 3, n_con: 2, w_benef: 3, w_custom: 0 }, &g); println!("{:?}", s.new_tree(&mut runner).unwrap().current()); }
+                "contract" => { let s = vharness::gen::contract(vharness::gen::Dim { n_eoa: 3, n_con: 2, w_benef: 3, w_custom: 0 }, &g); println!("{:?}", s.new_tree(&mut runner).unwrap().current()); }
+                "tx" => { let s = vharness::gen::tx(vharness::gen::Dim { n_eoa: 3, n_con: 2, w_benef: 3, w_custom: 0 }, &g, 10); println!("{:?}", s.new_tree(&mut runner).unwrap().current()); }
+                "sched" => { let s = vharness::gen::schedule(6); println!("{:?}", s.new_tree(&mut runner).unwrap().current()); }
+                "scenario" => { let s = vharness::gen::scenario(&g); println!("{:?}", s.new_tree(&mut runner).unwrap().current().txs.len()); }
+                _ => {}
+            }
+            println!("{which} took {:?}", t0.elapsed());
+        }
+        "flipdbg" => {
+            use proptest::strategy::{Strategy, ValueTree};
+            use proptest::test_runner::{Config, RngAlgorithm, TestRng, TestRunner};
+            let n: usize = args.get(2).and_then(|s| s.parse().ok()).unwrap_or(5);
+            let mut seed = [7u8; 32];
+            seed[0] = args.get(3).and_then(|s| s.parse().ok()).unwrap_or(1);
+            let mut runner = TestRunner::new_with_rng(Config::default(), TestRng::from_seed(RngAlgorithm::ChaCha, &seed));
+            let mut g = vharness::gen::GenCfg::default();
+            g.w_invalid_tx = 3;
+            let s = vharness::gen::flipflop_scenario(&g);
+            for _ in 0..n {
+                let sc = s.new_tree(&mut runner).unwrap().current();
+                let oracle = vharness::blockdiff::Oracle { result_equal: true, commit_trace: true, exclude_ref_fatal: true, ..Default::default() };
+                let (rep, art) = vharness::blockdiff::evaluate(&sc, &oracle, None, None);
+                let mut line = String::new();
+                for l in &art.out.log {
+                    match &l.ev {
+                        vharness::dsched::Ev::AttemptEnd { txid, incarnation, kind, .. } => line += &format!("E{txid}.{incarnation}k{kind} "),
+                        vharness::dsched::Ev::ValidationEnd { txid, conflict, .. } => line += &format!("V{txid}{} ", if *conflict { "x" } else { "ok" }),
+                        vharness::dsched::Ev::Commit { txid, .. } => line += &format!("C{txid} "),
+                        vharness::dsched::Ev::Abort { kind, txid } => line += &format!("ABORT{kind}@{txid} "),
+                        _ => {}
+                    }
+                }
+                let sels: Vec<_> = sc.txs.iter().map(|t| (t.sender, t.sel)).collect();
+                println!("workers={} holds={} txs={:?} fail={:?}\n   {}", sc.grevm.concurrency, sc.schedule.as_ref().map_or(0, |s| s.holds.len()), sels, rep.failure.map(|f| f.clause), line);
+            }
+        }
+        "fuzzone" => {
+            let data = std::fs::read(&args[3]).expect("read input");
+            let t0 = std::time::Instant::now();
+            match args[2].as_str() {
+                "pipeline" => vharness::fuzzing::pipeline_one(&data),
+                "pstate" => vharness::fuzzing::pstate_one(&data),
+                _ => vharness::fuzzing::txdep_one(&data),
+            }
+            println!("done in {:?}", t0.elapsed());
+        }
         "debug" => {
             checks::debug(&args[2]);
         }
